@@ -6,7 +6,13 @@ Correspondence: L1-create / L1-trials of props/c16.py on every block of the gene
 Nest programs (the model's `create_nest` arguments and trial arithmetic vs the real ones);
 L1-nestsem: the normal form [nest_sem So Si] of Front/NestSem.v (the object of theorem
 C25_nest_groups) vs the reference-semantics normal form docsem.py builds for the Nest from
-the documentation, for every Nest program inside the theorem's guard [nestable_b].
+the documentation, for every Nest program inside the theorem's guard [nestable_b];
+L1-nestsem2: the same for [nest_sem2] of Front/NestSem2.v (derived factors with their windows and tables, every
+constraint kind) inside the widest guard of C25_nest_groups_derived / ..., the documentation's form renumbered to the
+factor order "outer block's factors, then inner block's factors" (docsem orders a design's factors by derivation depth);
+L1-nestgroups: both sides of those theorems ([valid_b (nest_sem2 So Si) s] and the decided group specification
+[groups2_b So Si s]) evaluated by the extracted code on every sequence the exhausted IterateSATGen returns for a Nest
+inside a guard: they must agree and hold.  input_distribution reports the share of the generated Nests inside each guard.
 Search (the property itself; the group specification is written here, the validity of
 the parts is judged by the reference oracle of the outer block alone and of the inner
 block alone - docsem.doc_sem(program, bid) - never by the library):
@@ -29,6 +35,7 @@ import copy
 import itertools
 import json
 
+import common
 import designrun
 import docsem
 import flat
@@ -176,6 +183,101 @@ def nestable_family():
         out.append(("nestable-constraint", {"factors": [A, B], "constraints": cons, "blocks": blocks, "main": blocks[-1]["id"],
                                             "shape": "nestable"}))
     return out
+
+
+def derived_family():
+    """Nests with within-trial derived factors in the outer or the inner block (guard nestable_d_b of
+    C25_nest_groups_derived)."""
+    out = []
+    for outer_w, outer_cross_c, inner_w, inner_cross_d in ((True, False, False, False), (True, True, False, False),
+                                                          (False, False, True, False), (False, False, True, True),
+                                                          (True, False, True, False)):
+        A = F(0, "A", ["a0", "a1"])
+        B = F(1, "B", ["b0", "b1"])
+        C = F(2, "C", ["c0", "c1"])
+        D = F(3, "D", ["d0", "d1"])
+        factors = [A, B, C, D]
+        od, oc, idn, ic = [0], [0], [1], [1]
+        if outer_w:
+            factors.append(within(4, "wAC", 0, 2, ["a0", "a1"], ["c0", "c1"]))
+            od, oc = [0, 2, 4], ([0, 2] if outer_cross_c else [0])
+        if inner_w:
+            factors.append(within(5, "wBD", 1, 3, ["b0", "b1"], ["d0", "d1"]))
+            idn, ic = [1, 3, 5], ([1, 3] if inner_cross_d else [1])
+        blocks = [{"id": 0, "kind": "CrossBlock", "design": od, "crossing": oc, "constraints": [], "rcc": True},
+                  {"id": 1, "kind": "CrossBlock", "design": idn, "crossing": ic, "constraints": [], "rcc": True},
+                  {"id": 2, "kind": "Nest", "outer": 0, "inner": 1, "constraints": []}]
+        out.append(("nestable-derived", {"factors": factors, "constraints": [], "blocks": blocks, "main": 2, "shape": "nestable2"}))
+    return out
+
+
+GUARDS = ["nestable_b", "nestable_d_b"]      # in the order extract/drv_front.ml (nestsem2) prints them
+
+
+def renumber_sem(sem, pos):
+    """A docsem normal form with its factors renumbered: position p becomes pos[p]."""
+    T, fs, cs, ks = sem
+    nf = [None] * len(fs)
+    for p, f in enumerate(fs):
+        d = f[2]
+        nf[pos[p]] = [f[0], f[1], None if d is None else [[pos[x] for x in d[0]]] + list(d[1:])]
+    ncs = [[[pos[x] for x in c[0]]] + list(c[1:]) for c in cs]
+    nks = []
+    for k in ks:
+        kind = list(k[0])
+        if kind[0].s == "latin":
+            kind[1] = [[pos[x], n] for x, n in kind[1]]
+        nks.append([kind, pos[k[1]], k[2], k[3]])
+    return [T, nf, ncs, nks]
+
+
+def nestsem2_observation(program):
+    """(reason, None) or (None, dict): the documented normal forms of the outer block, the inner block and the Nest, the
+    latter renumbered to the factor order outer ++ inner, and the model lines."""
+    main = block_desc(program, program["main"])
+    if main["kind"] != "Nest":
+        return "not-a-nest", None
+    if main.get("constraints"):
+        return "nest-level-constraints", None       # nest_sem2 is the form of Nest(outer, inner) without constraints of its own
+    try:
+        o, i, n = docsem.doc_sem(program, main["outer"]), docsem.doc_sem(program, main["inner"]), docsem.doc_sem(program)
+    except docsem.Unsupported:
+        return "outside-docsem", None
+    if o.unsat or i.unsat or n.unsat:
+        return "unsatisfiable-crossing-marker", None   # docsem appends an unsatisfiable marker constraint sized by the block
+    target = list(o.forder) + list(i.forder)
+    if len(set(target)) != len(target) or sorted(target) != sorted(n.forder):
+        return "shared-factors", None
+    tpos = {f: j for j, f in enumerate(target)}
+    pos = [tpos[f] for f in n.forder]
+    return None, {"line": "(nestsem2 %s %s)" % (to_wire(o.sem), to_wire(i.sem)), "expected": to_wire(renumber_sem(n.sem, pos)),
+                  "o": o, "i": i, "n": n, "target": target}
+
+
+def nestgroups_line(ob, samples, cap=CAP):
+    """The exhausted real sequences in the factor order outer ++ inner, as a (nestgroups ...) model line (None if a
+    sample cannot be expressed)."""
+    n = ob["n"]
+    seqs = []
+    for smp in samples[:cap]:
+        rows = []
+        for f in ob["target"]:
+            name = n.names[f]
+            if name not in smp:
+                return None
+            row = []
+            for v in smp[name]:
+                if v == "":
+                    row.append(-1)
+                elif v in n.levels[f]:
+                    row.append(n.levels[f].index(v))
+                else:
+                    return None
+            rows.append(row)
+        seqs.append(rows)
+    if not seqs:
+        return None
+    return "(nestgroups %s %s %s)" % (to_wire(ob["o"].sem), to_wire(ob["i"].sem), to_wire(seqs))
 
 
 def show_sem(sem):
@@ -353,8 +455,8 @@ def compositions(program, ods, ids, To, Ti, limit):
     return out, total
 
 
-def check_program(program, stats):
-    """[(sig, what, detail)]"""
+def check_program(program, stats, keep=None):
+    """[(sig, what, detail)]; `keep` (a dict) receives the sequences each strategy returned"""
     found = []
     main = block_desc(program, program["main"])
     built = ir.build(program)
@@ -396,6 +498,8 @@ def check_program(program, stats):
             continue
         samples = r[1]
         got[strat] = samples
+        if keep is not None:
+            keep[strat] = samples
         if T != To * Ti:
             continue
         reasons = split_check(program, samples, To, Ti, ods, ids)
@@ -473,7 +577,7 @@ def run(ctx, res):
     n = 18 if ctx.quick else 120
     nassoc = 4 if ctx.quick else 30
     rng = ctx.rng
-    progs = hand_programs() + nestable_family() + [("gen", gen_nest(rng)) for _ in range(n)]
+    progs = hand_programs() + nestable_family() + derived_family() + [("gen", gen_nest(rng)) for _ in range(n)]
     res.rule = ("%d generated Nest programs (outer / inner CrossBlock or single-crossing MultiCrossBlock over 2-3-level factors, block "
                 "constraints AtMostKInARow / ExactlyK / Pin / Sequential / AtLeastKInARow, sometimes a Nest-level constraint, Nest in "
                 "Nest on either side) + %d associativity pairs; exhausted IterateSATGen (cap %d) and RandomGen; non-trivial = a "
@@ -497,7 +601,20 @@ def run(ctx, res):
             if ob is not None:
                 lines.append(ob[0])
                 expect.append(("nestsem", ob[1], p))
-            fs, status = check_program(p, stats)
+            src = "gen" if tag == "gen" else "family"
+            why2, ob2 = nestsem2_observation(p)
+            stats["guard:%s:nests" % src] += 1
+            if ob2 is None:
+                stats["guard:%s:no-form:%s" % (src, why2)] += 1
+            keep = {}
+            fs, status = check_program(p, stats, keep)
+            if ob2 is not None:
+                lines.append(ob2["line"])
+                expect.append(("nestsem2", (ob2, src), p))
+                gl = nestgroups_line(ob2, keep.get("IterateSATGen", []))
+                if gl is not None:
+                    lines.append(gl)
+                    expect.append(("nestgroups", (ob2, src, len(keep["IterateSATGen"]) < CAP), p))
         except Exception as e:  # noqa
             found.append(("harness", "harness error: %s %s" % (type(e).__name__, str(e)[:300]), {}, p, False))
             continue
@@ -534,6 +651,42 @@ def run(ctx, res):
                 continue
             stats["nestsem:nestable"] += 1
             rv, mv = real, msem
+        elif kind == "nestsem2":
+            ob2, src = real
+            gtxt, _, msem = mod.partition(") ")
+            guards = dict(zip(GUARDS, [g == "true" for g in gtxt.lstrip("(").split()]))
+            ob2["guards"] = guards
+            for g in GUARDS:
+                if guards.get(g):
+                    stats["guard:%s:%s" % (src, g)] += 1
+            if not guards.get(GUARDS[-1]):
+                stats["nestsem2:outside-guard"] += 1
+                continue
+            stats["nestsem2:inside-guard"] += 1
+            rv, mv = ob2["expected"], msem
+        elif kind == "nestgroups":
+            ob2, src, exhausted = real
+            pairs = common.parse_sexp(mod)[0] if not mod.startswith("!") else None
+            if pairs is None:
+                rv, mv = "pairs", mod
+            else:
+                inside = ob2.get("guards", {}).get(GUARDS[-1])
+                agree = all(a == b for a, b in pairs)
+                hold = all(a == "true" and b == "true" for a, b in pairs)
+                if not inside:
+                    # outside the guards the two sides may differ: reported as a statistic only
+                    stats["nestgroups:outside-guard:%s" % ("agree" if agree else "differ")] += 1
+                    continue
+                stats["nestgroups:programs"] += 1
+                stats["nestgroups:sequences"] += len(pairs)
+                if agree and not hold:
+                    bad = [j for j, (a, b) in enumerate(pairs) if a != "true"]
+                    found.append(("nest:groups:sem-invalid", "IterateSATGen returns %d of %d sequences of a Nest inside the guard of "
+                                  "C25_nest_groups_* that are not valid for the documented normal form of the Nest (hence, by the "
+                                  "theorem, no group composition), first: index %d" % (len(bad), len(pairs), bad[0]),
+                                  {"indices": bad[:10]}, p, True))
+                    continue
+                rv, mv = "agree", ("agree" if agree else "differ: %s" % (pairs[:6],))
         else:
             rv, mv = real, c16.model_trials_view(mod)
         ok = (rv == mv)
